@@ -286,10 +286,16 @@ class Cascade:
                 )
                 stage_results.append(stage_result)
 
-                if self.on_stage_complete:
-                    self.on_stage_complete(stage_result)
-
                 current_signal = output_signal
+
+                # The stage has completed: a failing observer is not a stage failure
+                # (it must not reach the stage's error handler or re-record the stage)
+                if self.on_stage_complete:
+                    try:
+                        self.on_stage_complete(stage_result)
+                    except Exception as callback_error:
+                        if not self.silent:
+                            print(f"  ⚠️ on_stage_complete callback failed at {stage.name}: {callback_error}")
 
             except Exception as e:
                 if not self.silent:
